@@ -1,5 +1,5 @@
 CONSTANTS
-  Intervals = {1, 2}
+  Intervals = {1}
   AtDelays = {0}
   MaxT = 3
   MaxNow = 2
